@@ -174,3 +174,59 @@ PROFILES.update({
     "shutdown": {"dsig": 0.5, "cmds": ["quit", "stop", "restart", "incr", "kill", "status"], "stubborn": 0.4,
                  "partial": 0.4, "steps": 14, "xprobe": False},
 })
+
+
+def directory(seed, conf=False):
+    """add / rm / start / stop over a small name pool with case variants and an empty name (C15)."""
+    import random
+    import shlex
+    rng = random.Random(seed)
+    pool = ["a", "A", "b", "Ab", "aB", "", "x-y"]
+    init = rng.sample(["a", "b", "x-y"], rng.choice([1, 2]))
+    ws = [{"name": n, "np": rng.choice([0, 1, 2]), "G": rng.choice([0.0, 0.1, 0.2]), "W": rng.choice([0.0, 0.1]),
+           "priority": rng.choice([0, 1])} for n in init]
+    sc = {"seed": seed, "watchers": ws, "check_delay": rng.choice([0.3, 0.5]), "warmup_delay": 0.0,
+          "stubborn": [n for n in init if rng.random() < 0.3], "obeys": [True, True, False, True],
+          "instant_death": False, "script": [{"op": "boot"}, {"op": "tick", "n": rng.randint(0, 6)}]}
+    s = sc["script"]
+    released = set()      # names removed with nostop: their workers live on; the name is not re-added, so that
+    for _ in range(rng.randint(4, 16)):      # two observable watchers never share a (case-insensitive) name
+        r = rng.random()
+        n = rng.choice(pool)
+        if r < 0.3 and n.lower() in released:
+            r = 0.95
+        if r < 0.3:
+            props = {"name": n, "cmd": "simworker " + shlex.quote(n), "start": rng.random() < 0.5,
+                     "options": {"numprocesses": rng.choice([0, 1, 2]), "graceful_timeout": rng.choice([0, 0.1, 0.2]),
+                                 "warmup_delay": rng.choice([0, 0.1])}}
+            if rng.random() < 0.15:
+                props["options"]["singleton"] = True
+            s.append({"op": "req", "cmd": "add", "props": props})
+        elif r < 0.5:
+            ns = rng.random() < 0.3
+            if ns:
+                released.add(n.lower())
+            s.append({"op": "req", "cmd": "rm", "props": {"name": n, "nostop": ns, "waiting": rng.random() < 0.5}})
+        elif r < 0.7:
+            cmd = rng.choice(["start", "stop", "restart", "incr", "status", "numprocesses", "list"])
+            props = {"name": n}
+            if cmd in ("start", "stop", "restart", "incr"):
+                props["waiting"] = rng.random() < 0.5
+                if not conf:
+                    props["match"] = "simple" if cmd != "incr" else None
+                    if props["match"] is None:
+                        props.pop("match")
+            s.append({"op": "req", "cmd": cmd, "props": props})
+        elif r < 0.8:
+            s.append({"op": "die", "sel": [n or "a", rng.randint(0, 2)], "status": rng.choice(scenario.EXIT_STATUSES)})
+        else:
+            s.append({"op": "tick", "n": rng.randint(1, 5)})
+        if rng.random() < 0.35:
+            s.append({"op": "probe"})
+    s.append({"op": "tick", "n": 8})
+    s.append({"op": "end", "xprobe": False, "passes": 2})
+    return sc
+
+
+PROFILES["directory"] = directory
+PROFILES["conf_dir"] = lambda seed: directory(seed, conf=True)
